@@ -118,7 +118,7 @@ class LoopSpec:
         S = VSeq(t, k)
         which = I.choose(3, 'loop_%s' % self.name)
         if which == 0:
-            self._check(I, fr, {'_P': VSeq(z3.Empty(t.sort()), k), '_S': S}, 'base')
+            self._check(I, fr, {'_P': VSeq(z3.Empty(t.sort()), k), '_S': S, '_R': S}, 'base')
             raise PathEnd()
         if which == 1:
             self.havoc(I, fr)
@@ -126,7 +126,7 @@ class LoopSpec:
             m = z3.Const(sym.fresh_name('m'), k.sort)
             R = z3.Const(sym.fresh_name('R'), t.sort())
             I.st.assume(t == z3.Concat(P, z3.Unit(m), R))
-            self._assume(I, fr, {'_P': VSeq(P, k), '_S': S})
+            self._assume(I, fr, {'_P': VSeq(P, k), '_S': S, '_R': VSeq(z3.Concat(z3.Unit(m), R), k)})
             I.assign(node.target, k.wrap(m), fr)
             try:
                 I.exec_block(node.body, fr)
@@ -134,10 +134,10 @@ class LoopSpec:
                 pass
             except BreakSignal:
                 raise Unsupported('break inside a loop with invariant')
-            self._check(I, fr, {'_P': VSeq(z3.Concat(P, z3.Unit(m)), k), '_S': S}, 'step')
+            self._check(I, fr, {'_P': VSeq(z3.Concat(P, z3.Unit(m)), k), '_S': S, '_R': VSeq(R, k)}, 'step')
             raise PathEnd()
         self.havoc(I, fr)
-        self._assume(I, fr, {'_P': S, '_S': S})
+        self._assume(I, fr, {'_P': S, '_S': S, '_R': VSeq(z3.Empty(t.sort()), k)})
         I.exec_block(node.orelse, fr)
 
     # -- while loops
